@@ -129,6 +129,71 @@ def encode_src(prog):
     return "".join(out)
 
 
+def remote_src(prog):
+    """Remote helpers of every exec / query method (C10): executor, querier, instantiate builder, admin."""
+    pid = prog["id"]
+    o = ["    fn remote_events(first_seq: usize) {\n"
+         "        use sylvia::types::{BoundQuerier, EmptyExecutorBuilderState, ExecutorBuilder, Remote};\n"
+         "        use sylvia::cw_std::{Addr, Empty, QuerierWrapper};\n"
+         "        use verif_rrt::remote;\n        let vt = vt();\n        let mut seq = first_seq;\n"]
+    n = 0
+    for part in prog["parts"]:
+        for m in part["methods"]:
+            if m["kind"] not in ("exec", "query"):
+                continue
+            for val, handle in ((0, "contract"), (1, "dyn" if part["id"] != "own" else "contract")):
+                n += 1
+                lets = "".join("let %s: %s = %s; " % (a["n"], TYPES[a["t"]][0], TYPES[a["t"]][1][val_ix(val, i)][0])
+                               for i, a in enumerate(m["args"]))
+                call_args = "".join(", %s.clone()" % a["n"] for a in m["args"])
+                encs = ", ".join('("%s", rec::enc(&%s))' % (a["n"], a["n"]) for a in m["args"])
+                if part["id"] == "own":
+                    hty = "Ctr"
+                    trait_mod = "sv"
+                else:
+                    hty = "Ctr" if handle == "contract" else "dyn %s::%s<Error = ContractError>" % (part["id"], part["id"].capitalize())
+                    trait_mod = "%s::sv" % part["id"]
+                o.append("        { %slet addr = Addr::unchecked(\"target%d\"); let funds = verif_rrt::funds_pool(%d);\n"
+                         "          let remote: Remote<%s> = %s;\n" % (
+                             lets, n % 3, n, hty, "Remote::new(addr.clone())" if val == 0 else "Remote::borrowed(&addr)"))
+                if m["kind"] == "exec":
+                    o.append("          let w = <ExecutorBuilder<(EmptyExecutorBuilderState, %s)> as %s::Executor>::%s(remote.executor().with_funds(funds.clone())%s).map(|b| b.build());\n"
+                             "          remote::exec(&vt, seq, \"%s\", \"%s\", \"%s\", %d, \"%s\", &addr, &funds, vec![%s], w); seq += 1; }\n" % (
+                                 hty, trait_mod, m["near"], call_args, part["id"], m["name"], m["wire"], val, handle, encs))
+                else:
+                    encs_v = ", ".join('serde_json::json!({"n": "%s", "json": rec::enc(&%s)})' % (a["n"], a["n"]) for a in m["args"])
+                    o.append("          let argsj: Vec<serde_json::Value> = vec![%s]; let a2 = addr.to_string(); let sq = seq;\n"
+                             "          let mut deps = sylvia::cw_std::testing::mock_dependencies();\n"
+                             "          deps.querier.update_wasm(move |wq| remote::query_handler(&self::vt(), sq, \"%s\", \"%s\", \"%s\", %d, \"%s\", &a2, argsj.clone(), wq));\n"
+                             "          let wrapper: QuerierWrapper<Empty> = QuerierWrapper::new(&deps.querier);\n"
+                             "          let r = <BoundQuerier<Empty, %s> as %s::Querier>::%s(&remote.querier(&wrapper)%s);\n"
+                             "          remote::query_result(&vt, \"%s\", \"%s\", %d, r.map(|v| rec::enc(&v)).map_err(|e| e.to_string())); seq += 1; }\n" % (
+                                 encs_v, part["id"], m["name"], m["wire"], val, handle, hty, trait_mod, m["near"], call_args,
+                                 part["id"], m["name"], val))
+    own = [p for p in prog["parts"] if p["id"] == "own"][0]
+    inst = [m for m in own["methods"] if m["kind"] == "instantiate"][0]
+    for val, variant in ((0, "plain"), (1, "full"), (0, "salted")):
+        lets = "".join("let %s: %s = %s; " % (a["n"], TYPES[a["t"]][0], TYPES[a["t"]][1][val_ix(val, i)][0]) for i, a in enumerate(inst["args"]))
+        call_args = "".join(", %s.clone()" % a["n"] for a in inst["args"])
+        encs = ", ".join('("%s", rec::enc(&%s))' % (a["n"], a["n"]) for a in inst["args"])
+        o.append("        { use sv::CtrInstantiateBuilder; use sylvia::builder::instantiate::InstantiateBuilder; %slet funds = verif_rrt::funds_pool(%d);\n"
+                 "          let b = InstantiateBuilder::ctr(%d%s);\n" % (lets, val + 1, 40 + val, call_args))
+        if variant == "plain":
+            o.append("          let w = b.map(|b| b.build());\n"
+                     "          remote::instantiate(&vt, seq, %d, \"plain\", %d, \"\", \"\", &[], \"\", vec![%s], w); seq += 1; }\n" % (val, 40 + val, encs))
+        elif variant == "full":
+            o.append("          let w = b.map(|b| b.with_label(\"lbl\").with_admin(\"adm\".to_string()).with_funds(funds.clone()).build());\n"
+                     "          remote::instantiate(&vt, seq, %d, \"full\", %d, \"lbl\", \"adm\", &funds, \"\", vec![%s], w); seq += 1; }\n" % (val, 40 + val, encs))
+        else:
+            o.append("          let w = b.map(|b| b.with_label(\"l2\").build2(sylvia::cw_std::Binary::from(b\"salt\".to_vec())));\n"
+                     "          remote::instantiate(&vt, seq, %d, \"salted\", %d, \"l2\", \"\", &[], \"c2FsdA==\", vec![%s], w); seq += 1; }\n" % (val, 40 + val, encs))
+    o.append("        { let addr = Addr::unchecked(\"target9\"); let remote: Remote<Ctr> = Remote::new(addr.clone());\n"
+             "          remote::admin(&vt, \"update_admin\", &addr, \"new_adm\", remote.update_admin(\"new_adm\"));\n"
+             "          remote::admin(&vt, \"clear_admin\", &addr, \"\", remote.clear_admin()); }\n"
+             "        let _ = seq;\n    }\n\n")
+    return "".join(o)
+
+
 def variant_of_part(part):
     return "Ctr" if part["id"] == "own" else part["id"].capitalize()
 
@@ -144,7 +209,7 @@ def program_src(prog):
     o.append("    use sylvia::ctx::{ExecCtx, InstantiateCtx, MigrateCtx, QueryCtx, SudoCtx};\n"
              "    use sylvia::cw_std::{from_json, to_json_vec, Binary, Env, MessageInfo, Response, StdError, Uint128};\n"
              "    use verif_rrt::{rec, CallOut, ContractError, Deps, HandlerErr, Nested, ProgVt, QResp};\n"
-             "    use verif_rrt::{outcome_bin, outcome_resp, proj_anyhow, proj_err};\n\n")
+             "    use verif_rrt::{outcome_bin, outcome_resp, proj_anyhow, proj_err, serde_json};\n\n")
     for p in ifaces:
         tr = p["id"].capitalize()
         o.append("    pub mod %s {\n        use super::*;\n        use sylvia::interface;\n\n        #[interface]\n"
@@ -205,7 +270,7 @@ def program_src(prog):
         else:
             call = "outcome_resp(entry_points::%s(deps.as_mut(), env, m).map_err(|e| proj_err(&e)))" % EP_FN[k]
         o.append("            \"%s\" => match from_json::<%s>(doc) {\n                Err(e) => CallOut::DecodeErr(e.to_string()),\n"
-                 "                Ok(m) => CallOut::Done(%s),\n            },\n" % (k, ty, call))
+                 "                Ok(m) => { let (v, b) = %s; CallOut::Done(v, b) }\n            },\n" % (k, ty, call))
     o.append("            _ => CallOut::Absent,\n        }\n    }\n\n")
     o.append("    fn call_mt(kind: &str, deps: &mut Deps, env: Env, info: MessageInfo, doc: &[u8]) -> CallOut {\n"
              "        type MtC = dyn sylvia::cw_multi_test::Contract<sylvia::cw_std::Empty, sylvia::cw_std::Empty>;\n        let c = Ctr::new();\n        match kind {\n")
@@ -218,11 +283,12 @@ def program_src(prog):
             call = "outcome_resp(MtC::%s(&c, deps.as_mut(), env, info, doc.to_vec()).map_err(|e| proj_anyhow(&e)))" % EP_FN[k]
         else:
             call = "outcome_resp(MtC::%s(&c, deps.as_mut(), env, doc.to_vec()).map_err(|e| proj_anyhow(&e)))" % EP_FN[k]
-        o.append("            \"%s\" => CallOut::Done(%s),\n" % (k, call))
+        o.append("            \"%s\" => { let (v, b) = %s; CallOut::Done(v, b) }\n" % (k, call))
     o.append("            _ => CallOut::Absent,\n        }\n    }\n\n")
     o.append("    fn encode_events() {\n" + encode_src(prog) + "    }\n\n")
+    o.append(remote_src(prog))
     parts = ", ".join('"%s"' % p["id"] for p in prog["parts"])
-    o.append("    pub fn vt() -> ProgVt {\n        ProgVt { id: \"%s\", lists, decode_wrapper, decode_part, decode_struct, call_ep, call_mt, encode_events, parts: &[%s] }\n    }\n" % (pid, parts))
+    o.append("    pub fn vt() -> ProgVt {\n        ProgVt { id: \"%s\", lists, decode_wrapper, decode_part, decode_struct, call_ep, call_mt, encode_events, parts: &[%s], remote_events: Some(remote_events) }\n    }\n" % (pid, parts))
     o.append("}\n")
     return "".join(o)
 
